@@ -3,7 +3,7 @@
    total order (C06_element_orders gives the two instances the checks run at). *)
 From Coq Require Import Sorting.Permutation Sorting.Sorted.
 From EsVerif.Common Require Import Base.
-From EsVerif.C06 Require Import Model Spec Lemmas MatchProofs DedupProofs Proofs Forms FormsProofs Skel Gen Tie PromoteProofs RoundProofs PromoteChar DedupMore History.
+From EsVerif.C06 Require Import Model Spec Lemmas MatchProofs DedupProofs Proofs Forms FormsProofs Skel Gen Tie PromoteProofs RoundProofs PromoteChar DedupMore History Rejections.
 Local Open Scope nat_scope.
 
 (* integers (and order-embedded floats) and code-point strings are total orders *)
@@ -440,3 +440,24 @@ Example C06_nonvacuous_deepening :
   /\ run Z zltb zeqb tt [CUnique Z false [1; 0; 2] [5; 1; 5]%Z true; CMatch Z false ClsNum false [3; 1]%Z [1]%Z]
       = [AUnique Z (Ok (UVals [1; 5]%Z)); AMatch Z (Ok ([1], [0]))].
 Proof. repeat split; vm_compute; reflexivity. Qed.
+
+(* ======================================================================================
+   Round 6.  Error paths as a theorem: exactly which inputs match / match_multi reject and with
+   which class - IndexError iff the first array is empty; ValueError iff it is not empty and the
+   second is empty or the first has a repeated value; an answer otherwise; no other error class;
+   match_multi (whatever presorted= it is given) is the same function.
+   ====================================================================================== *)
+Theorem C06_match_rejections : forall A (ltb eqb : A -> A -> bool), total_order ltb eqb ->
+  forall str (a1 a2 : list A),
+  let r := match_ ltb eqb str false a1 a2 in
+  (r = Err EIndex <-> a1 = [])
+  /\ (r = Err EValue <-> a1 <> [] /\ (a2 = [] \/ ~ NoDup a1))
+  /\ ((exists o, r = Ok o) <-> a1 <> [] /\ a2 <> [] /\ NoDup a1)
+  /\ (forall e, r = Err e -> e = EIndex \/ e = EValue)
+  /\ match_multi ltb eqb str true a1 a2 = r.
+Proof. exact match_rejections. Qed.
+
+Example C06_nonvacuous_round6 :
+  match_ zltb zeqb false false [] [1]%Z = Err EIndex /\ match_ zltb zeqb false false [1; 1]%Z [1]%Z = Err EValue
+  /\ match_ zltb zeqb false false [2; 1]%Z [] = Err EValue /\ match_ zltb zeqb false false [2; 1]%Z [1]%Z = Ok ([1], [0]).
+Proof. repeat split; reflexivity. Qed.
